@@ -847,7 +847,12 @@ func CheckMain(prop, tier string) int {
 			exit = 1
 			continue
 		}
-		min, n := minimise(r.Trace, v, 400, 240*time.Second)
+		maxReplays, maxWall := 400, 240*time.Second
+		if os.Getenv("OLSIM_FAST_TRIAGE") != "" {
+			// triage aid (testing the checks against seeded changes): report fast, minimise little
+			maxReplays, maxWall = 12, 20*time.Second
+		}
+		min, n := minimise(r.Trace, v, maxReplays, maxWall)
 		repM, _ := replayTrace(min)
 		if !sameViolation(repM, v) {
 			min = r.Trace
